@@ -84,6 +84,10 @@ def single_cases(tier, rng):
               b"\xc3\xa9" * 4, b"\xef\xbc\x91" * 4 + b"1", b"\xf0\x9d\x9f\x8f" * 2, b"\xf0\x9d\x9f\x8f" * 3,
               b"1234x67B", b"123456789x12B", b"\xff" * 7, b"\xff" * 8, b"\xff" * 12, b"\xff" * 13]:
         add(s)
+    # lengths that wrap around an 8/16-bit counter onto 7/8/12/13, runes whose low byte is a digit (lib/gaps.py)
+    import gaps
+    for t in gaps.ean_wrap(rng, tier) + gaps.ean_low_byte(rng):
+        add(t.encode("utf-8"))
     for _ in range(300 if tier == "quick" else 3000):
         n = rng.choice([7, 8, 12, 13])
         add(bytes(rng.choice(b"0123456789") if rng.random() < 0.9 else rng.randrange(256) for _ in range(n)))
